@@ -117,8 +117,8 @@ def generate(rng, tier, index):
     count = rng.choice([1, 2, 3, 4, 5, 7])
     sl = rng.choice([1, 2, 3])
     n = rng.randrange(0, 3 * count + 3)
-    if sl == 1 and tkind.startswith("split"):
-        n = min(n, 9 * count)  # stay within what a 1-digit suffix can name without colliding names
+    if sl == 1 and tkind.startswith("split") and rng.random() < 0.4:
+        n = rng.randrange(9 * count, 13 * count + 2)  # more parts than a 1-digit suffix can count
     multi = tkind not in ("avro",) and rng.random() < 0.6
     ops = []
     for i in range(n):
@@ -132,11 +132,11 @@ def generate(rng, tier, index):
             "buffer_size": rng.choice([1, 7, 64, 8192])}  # fmt: skip
 
 
-DELTAS_US = [0, 1, 400000, 1000000, 59 * 60 * 1000000, 3600 * 1000000, 86400 * 1000000, -3600 * 1000000, -86400 * 1000000, 2 * 3600 * 1000000]
+DELTAS_US = [0, 1, 400000, 1000000, 60 * 1000000, 61 * 1000000, 59 * 60 * 1000000, 3600 * 1000000, 86400 * 1000000, -3600 * 1000000, -86400 * 1000000, 2 * 3600 * 1000000]
 
 
 def gen_archive(rng, tier):
-    kind = rng.choice(["archiver", "archiver", "template-hour", "template-day", "template-name", "template-field", "archive-uri"])
+    kind = rng.choice(["archiver", "archiver", "template-hour", "template-day", "template-name", "template-field", "template-minute", "archive-uri"])
     n_ops = rng.choice([3, 5, 8, 12, 20, 30]) if tier == "quick" else rng.choice([3, 6, 10, 20, 40])
     burst = rng.random() < 0.5  # many events inside one second
     ops = []
@@ -548,6 +548,8 @@ def expected_path(plan, root, name, gen_ts, s):
         return "%s/%s.records.gz" % (root, name)
     if kind == "template-field":
         return "%s/by/%s.records.gz" % (root, s)
+    if kind == "template-minute":
+        return "%s/m/%s-%s.records" % (root, name, gen_ts.strftime("%Y%m%dT%H%M"))
     raise ValueError(kind)
 
 
@@ -564,6 +566,7 @@ def make_archiver(plan, root, name):
         "template-day": root + "/d/{ts:%Y-%m-%d}.records",
         "template-name": root + "/{name}.records.gz",
         "template-field": root + "/by/{record.s}.records.gz",
+        "template-minute": root + "/m/{name}-{ts:%Y%m%dT%H%M}.records",
     }[kind]
     return PathTemplateWriter(tmpl, name=name)
 
